@@ -1,4 +1,5 @@
 import Jose.Lemmas.Entity
+import Jose.Grid.C16
 import Jose.Props.C01
 import Jose.Jwe
 /-
@@ -523,5 +524,18 @@ example :
         ("signatures", .arr [.obj [("signature", .str "s1")], .obj [("protected", .str "cDI"), ("signature", .str "s2")],
                              .obj [("signature", .str "s3")]])]) := by
   rfl
+
+
+/-! ### the model is the code, on a grid regenerated from the code on every run
+
+  `Jose/Grid/C16.lean` is rewritten by the translator (tools/extract_tables.py) on every run: it holds
+  what the library **built from the current working tree** answered, in-process, to a fixed grid of
+  operations — `add_entity` histories of length ≤ 2 over five kinds of additions from all fifteen start objects, for the JWS and the JWE member set, and `encode_protected` on seven objects.
+  `Driver.agrees` evaluates the model's handler for the row's operation (the same handler the
+  correspondence run uses) and compares with the recorded answer by `json_equal`.  The theorem is
+  checked by the kernel (`decide +kernel`: evaluation, no axiom); any edit of the C that changes one of
+  these answers makes it false, and the check then reports a violation. -/
+theorem model_is_code_on_grid : Jose.Grid.C16.chunks.all (fun c => c.all Jose.Driver.agrees) = true := by
+  decide +kernel
 
 end Jose.Props.C16
